@@ -349,6 +349,21 @@ def run_kwident(case):
     return {'viol': viol, 'stats': st, 'shape': shapes, 'nontrivial': True, 'sample': {'source': kwident_program(case['lo'])[0][:300]}}
 
 
+# loops that are active at the same time without being nested in the text: a FOR body that GOSUBs to a routine with loops of
+# its own (same counter type, same nesting depth, other limits and steps), two levels deep, and with float counters
+DIRECTED += [
+    ("FOR i% = 1 TO 3\nGOSUB inner\nPRINT i%\nNEXT\nEND\ninner: FOR j% = 10 TO 30 STEP 10\nPRINT j%\nNEXT\nRETURN\n",
+     [10, 20, 30, 1, 10, 20, 30, 2, 10, 20, 30, 3]),
+    ("FOR i% = 6 TO 1 STEP -3\nGOSUB r1\nPRINT i%\nNEXT\nPRINT i%\nEND\nr1: FOR j% = 1 TO 2\nGOSUB r2\nNEXT\nRETURN\n"
+     "r2: FOR k% = 100 TO 300 STEP 100\nzt& = zt& + k%\nNEXT\nPRINT zt&\nRETURN\n",
+     [600, 1200, 6, 1800, 2400, 3, 0]),
+    ("FOR a! = 0.5 TO 1.5 STEP 0.5\nGOSUB rf\nPRINT a!\nNEXT\nEND\nrf: FOR b! = 2 TO 1 STEP -1\nPRINT b!\nNEXT\nFOR c! = 7 TO 7\nPRINT c!\nNEXT\nRETURN\n",
+     [2.0, 1.0, 7.0, 0.5, 2.0, 1.0, 7.0, 1.0, 2.0, 1.0, 7.0, 1.5]),
+    ("zs 2\nEND\nSUB zs (n%)\nFOR i% = 1 TO n%\nIF n% > 1 THEN zs n% - 1\nPRINT n% * 10 + i%\nNEXT\nEND SUB\n",
+     [11, 21, 11, 22]),
+]
+
+
 def _ref_instr(start, s1, s2):
     # QuickBASIC manual: 0 if string1 is empty, if start > LEN(string1), or if string2 is not found; start if string2 is empty
     if s1 == '' or start > len(s1):
